@@ -25,15 +25,15 @@ def r20_1_2(ctx):
     ctx.begin("R20.1", "refusal path: warn, return, nothing written", floor=1)
     results = []
     for flag in (True, False):
-        I = mk_interp(ctx)
+        I = mk_interp(ctx, inline=lambda call, callee, depth: callee.cls == SUB, max_depth=3)  # private helpers of the class are followed
         outs = I.run_function(f, bind={"file_path": Const("x.json"), "remove_absence_time_list": Const(flag)})
         for st, ex in outs:
-            conds = [e for e in st.trace if isinstance(e, Cond) and "status" in e.text]
+            conds = [e for e in flatten(st.trace) if isinstance(e, Cond) and "status" in e.text]
             results.append((flag, st, ex, conds))
     refused = 0
     for flag, st, ex, conds in results:
-        stores = [e for e in st.trace if isinstance(e, Store) and isinstance(e.recv, Obj) and e.recv.name == "self"]
-        warns = [e for e in st.trace if isinstance(e, Call) and e.name.endswith("warn")]
+        stores = [e for e in flatten(st.trace) if isinstance(e, Store) and isinstance(e.recv, Obj) and e.recv.name == "self"]
+        warns = [e for e in flatten(st.trace) if isinstance(e, Call) and e.name.endswith("warn")]
         accepted = bool([s for s in stores if s.attr == "default_work_amount"])
         sv = [v for k, v in st.heap.items() if k[1] == "status" and k[0] != "self" and isinstance(v, EnumSet)]
         members = set(sv[0].members) if sv and isinstance(sv[0], EnumSet) else set(ctx.repo.enums["BaseProjectStatus"])
@@ -59,9 +59,10 @@ def r20_1_2(ctx):
         ctx.violation(construct(f, "no-refusal-path"), f.loc(), "no path refuses a project whose status is not FINISHED_SUCCESS")
     # stores before the status test on any path
     for flag, st, ex, conds in results:
+        evs = flatten(st.trace)
         if conds:
-            idx = st.trace.index(conds[0])
-            early = [e for e in st.trace[:idx] if isinstance(e, Store) and isinstance(e.recv, Obj) and e.recv.name == "self"]
+            idx = evs.index(conds[0])
+            early = [e for e in evs[:idx] if isinstance(e, Store) and isinstance(e.recv, Obj) and e.recv.name == "self"]
             if early:
                 ctx.violation(construct(f, "write-before-status-test:" + early[0].attr), early[0].loc, f"self.{early[0].attr} is written before the loaded project's status is tested")
     ctx.end()
@@ -69,14 +70,15 @@ def r20_1_2(ctx):
     ctx.begin("R20.2", "accepting path: work amount = loaded project's time after the optional absence removal; unit from the project", floor=2)
     acc = 0
     for flag, st, ex, conds in results:
-        stores = {e.attr: e for e in st.trace if isinstance(e, Store) and isinstance(e.recv, Obj) and e.recv.name == "self"}
+        evs = flatten(st.trace)
+        stores = {e.attr: e for e in evs if isinstance(e, Store) and isinstance(e.recv, Obj) and e.recv.name == "self"}
         if "default_work_amount" not in stores:
             continue
         acc += 1
         ctx.instance(construct(f, f"accept-flag={flag}"), sample={"stores": sorted(stores)})
         dwa = stores["default_work_amount"]
-        rm = [e for e in st.trace if isinstance(e, Call) and e.name.endswith("remove_absence_time_list") and e.callees]
-        if flag and (len(rm) != 1 or st.trace.index(rm[0]) > st.trace.index(dwa)):
+        rm = [e for e in evs if isinstance(e, Call) and e.name.endswith("remove_absence_time_list") and e.callees]
+        if flag and (len(rm) != 1 or evs.index(rm[0]) > evs.index(dwa)):
             ctx.violation(construct(f, "duration-before-absence-removal"), dwa.loc, "with remove_absence_time_list=True the duration is taken before (or without) removing the absence steps of the loaded project")
         if not flag and rm:
             ctx.violation(construct(f, "absence-removal-unconditional"), rm[0].loc, "absence steps of the loaded project are removed although remove_absence_time_list=False")
@@ -93,9 +95,9 @@ def r20_1_2(ctx):
         u = stores.get("unit_timedelta")
         if u is None or ".unit_timedelta" not in repr(u.value) or "self.unit_timedelta" in repr(u.value):
             ctx.violation(construct(f, "unit-source"), (u or dwa).loc, "unit_timedelta of the sub-project task is not taken from the loaded project")
-        rcall = [e for e in st.trace if isinstance(e, Call) and e.name.endswith("read_simple_json")]
+        rcall = [e for e in evs if isinstance(e, Call) and e.name.endswith("read_simple_json")]
         created_here = pname.startswith("new")
-        if created_here and (not rcall or st.trace.index(rcall[0]) > st.trace.index(dwa)):
+        if created_here and (not rcall or evs.index(rcall[0]) > evs.index(dwa)):
             ctx.violation(construct(f, "not-loaded"), dwa.loc, "the duration is taken without loading the saved project first")
     ctx.require(acc >= 1 or any(True for _ in ctx.findings), "no accepting path found")
     ctx.end()
